@@ -403,7 +403,11 @@ MUTATOR_CALLS = [r"\bb\.put\(", r"\bb\.delete\(", r"\bb\.create_bucket\(", r"\bb
 GUARDS = [r"^\s*if !self\.writable \{\s*return Err\(Error::ReadOnlyTx\);\s*\}",
           r"^\s*let tx = self\.inner\.borrow\(\);\s*if !tx\.lock\.writable\(\) \{\s*return Err\(Error::ReadOnlyTx\);\s*\}",
           r"^\s*if !self\.writable\(\) \{\s*return Err\(Error::ReadOnlyTx\);\s*\}"]
-FILE_MUTATIONS = [r"\b(?!buf\b)\w+\.write_all\(", r"\bfile\.seek\(", r"\b\w+\.allocate\(new_size\)|\bfile\.allocate\(", r"\.set_len\(", r"\.sync_all\(", r"\.sync_data\(", r"\bfile\.write\("]
+FILE_MUTATIONS = [r"\b(?!buf\b)\w+\.write_all\(", r"\bfile\.seek\(", r"\b\w+\.allocate\(new_size\)|\bfile\.allocate\(", r"\.set_len\(", r"\.sync_all\(", r"\.sync_data\(", r"\bfile\.write\(",
+                  r"\.write_all_at\(", r"\.write_at\(", r"\.write_vectored\(", r"\bfs::write\(", r"\bFile::create\(", r"\.truncate\(true\)", r"\bMmapMut\b", r"\.map_mut\(",
+                  r"\bfs::rename\(", r"\bfs::copy\(", r"\bfs::remove_file\(", r"\bpwrite\w*\(", r"\bftruncate\w*\(", r"\.set_permissions\(", r"\blibc::write\("]
+# calls of the inner mutators (tree edits, rebalance / spill, page release and allocation, the commit writer)
+INNER_MUTATORS = r"\.(put|delete|create_bucket|get_or_create_bucket|delete_bucket|rebalance|spill|write_data|insert_data|insert_branch|insert_child|merge|split|free|allocate)\("
 
 
 def all_fns(text):
@@ -447,7 +451,10 @@ def impl_block(text, rx, what):
 
 
 def gen_sites():
-    files = ["bucket.rs", "tx.rs", "cursor.rs", "db.rs", "node.rs", "freelist.rs", "page.rs", "meta.rs", "data.rs", "bytes.rs"]
+    files = sorted(f for f in os.listdir(os.path.join("/repo", "src")) if f.endswith(".rs") and f != "verif.rs")
+    for need in ("bucket.rs", "tx.rs", "cursor.rs", "db.rs", "node.rs", "freelist.rs", "page.rs"):
+        if need not in files:
+            raise GenError("source file %s not found" % need)
     api = []
     bucket = strip_comments(no_test(src("bucket.rs")))
     tx = strip_comments(no_test(src("tx.rs")))
@@ -463,6 +470,7 @@ def gen_sites():
         raise GenError("public API scan found only %d methods" % len(api))
     file_mut = []
     fl_writers = []
+    mut_callers = []
     for f in files:
         text = strip_comments(no_test(src(f)))
         fns = all_fns(text)
@@ -476,8 +484,11 @@ def gen_sites():
                 file_mut.append("%s:%s" % (f, name))
             if re.search(r"\*lock = ", own) or re.search(r"freelist\.lock\(\)\?\.init\(", own):
                 fl_writers.append("%s:%s" % (f, name))
+            if re.search(INNER_MUTATORS, own):
+                mut_callers.append("%s:%s" % (f, name))
     file_mut = sorted(set(file_mut))
     fl_writers = sorted(set(fl_writers))
+    mut_callers = sorted(set(mut_callers))
 
     # every place a handle's `writable` flag is set: (file:function, expression)
     ctors = []
@@ -510,6 +521,8 @@ def gen_sites():
     txt += ["]", "",
             "/-- functions (outside tests) that write, seek, extend or sync a file -/",
             "def fileMutators : List String := [%s]" % ", ".join(q(x) for x in file_mut), "",
+            "/-- every function (any file, any impl: Cursor, Range, Buckets, DB, ... included) that calls an inner mutator: tree edits, rebalance / spill, page release / allocation, the commit writer -/",
+            "def mutatorCallSites : List String := [%s]" % ", ".join(q(x) for x in mut_callers), "",
             "/-- functions that assign the shared free list -/",
             "def sharedFreelistWriters : List String := [%s]" % ", ".join(q(x) for x in fl_writers), "",
             "end Jamm.Gen", ""]
